@@ -48,3 +48,42 @@ Print Assumptions C06_euclid_symmetric.
 Theorem C06_cosine_symmetric : forall a b, length a = length b -> angular a b = angular b a.
 Proof. intros a b. apply angular_sym. Qed.
 Print Assumptions C06_cosine_symmetric.
+
+(* ---- real level: the ideal functions which the binary64 code approximates (DistReal.v: sqrt of the sum of squared
+   differences; dot/(|a||b|); acos/PI over Coq's real numbers). The rounding error between these and the float
+   functions above is not bounded (partial, see DESIGN C06); the implementation's outputs are checked against these
+   laws with an explicit tolerance by the correspondence harness. ---- *)
+From Coq Require Import Reals Lra.
+From Syz Require Import DistReal.
+
+(* Euclidean distance is a metric: non-negative, symmetric, zero on the diagonal, triangle inequality (Minkowski) *)
+Theorem C06_real_euclid_metric : forall a b c : list R, length a = length b -> length b = length c ->
+  (0 <= euclidR a b /\ euclidR a b = euclidR b a /\ euclidR a a = 0 /\ euclidR a c <= euclidR a b + euclidR b c)%R.
+Proof.
+  intros a b c Hab Hbc. split; [apply euclidR_nonneg|]. split; [apply euclidR_sym|]. split; [apply euclidR_self|].
+  exact (euclidR_triangle a b c Hab Hbc).
+Qed.
+Print Assumptions C06_real_euclid_metric.
+
+(* cosine distance of non-zero vectors: in [0,1], 0 against itself, 1 against the opposite vector (Cauchy-Schwarz) *)
+Theorem C06_real_cosine_range : forall a b : list R, (0 < dotR a a -> 0 < dotR b b ->
+  -1 <= cosineR a b <= 1 /\ 0 <= angularR a b <= 1)%R.
+Proof. intros a b Ha Hb. split; [exact (cosineR_range a b Ha Hb)|exact (angularR_range a b Ha Hb)]. Qed.
+Print Assumptions C06_real_cosine_range.
+
+Theorem C06_real_cosine_self_opposite : forall a : list R, (0 < dotR a a ->
+  angularR a a = 0 /\ angularR a (scaleR (-1) a) = 1)%R.
+Proof. intros a Ha. split; [exact (angularR_self a Ha)|exact (angularR_opposite a Ha)]. Qed.
+Print Assumptions C06_real_cosine_self_opposite.
+
+(* ... symmetric, and unchanged by positive scaling of either argument *)
+Theorem C06_real_cosine_scaling : forall (k : R) (a b : list R), (0 < k -> 0 < dotR a a -> 0 < dotR b b ->
+  cosineR (scaleR k a) b = cosineR a b /\ cosineR a (scaleR k b) = cosineR a b /\ cosineR a b = cosineR b a)%R.
+Proof.
+  intros k a b Hk Ha Hb. split; [exact (cosineR_scale_l k a b Hk Ha Hb)|]. split; [exact (cosineR_scale_r k a b Hk Ha Hb)|apply cosineR_sym].
+Qed.
+Print Assumptions C06_real_cosine_scaling.
+
+(* the premises are satisfiable: a concrete triple *)
+Example C06_real_nonvacuous : (0 < dotR [1; 2] [1; 2] /\ length [1; 2] = length [3; 4])%R.
+Proof. split; [cbn [dotR]; lra|reflexivity]. Qed.
